@@ -10,11 +10,11 @@ import (
 
 func lockFilters() []model.FilterSpec {
 	return []model.FilterSpec{
-		{Params: []ct.Comp{ct.P}},                      // f0 typed, never registered
-		{Params: []ct.Comp{ct.P}, With: ct.Of(ct.Q)},   // f1 typed, registered by the prelude
-		{Params: []ct.Comp{ct.P}, Unsafe: true},        // f2 unsafe
-		{},                                             // f3 Filter0
-		{Params: []ct.Comp{ct.R1}},                     // f4 for batches
+		{Params: []ct.Comp{ct.P}},                    // f0 typed, never registered
+		{Params: []ct.Comp{ct.P}, With: ct.Of(ct.Q)}, // f1 typed, registered by the prelude
+		{Params: []ct.Comp{ct.P}, Unsafe: true},      // f2 unsafe
+		{},                                           // f3 Filter0
+		{Params: []ct.Comp{ct.R1}},                   // f4 for batches
 	}
 }
 
